@@ -48,6 +48,9 @@ class Module(object):
             self.tree = ast.parse(text, filename=relpath)
         except SyntaxError as e:
             raise AnalysisError('cannot parse %s: %s' % (relpath, e))
+        # analyse an alpha-equivalent program whose locals carry the names the rules were written with
+        from . import alpha
+        self.alpha_renamed = alpha.normalise(self.tree, relpath)
         # dotted module name
         name = relpath[:-3].replace('/', '.')
         if name.endswith('.__init__'):
